@@ -52,36 +52,32 @@ def appendF (h : Heap) (to : Id) (src : List Id) : FR Heap :=
   | some r => pure r
   | none => throw "append ran out of fuel"
 
-/-- the normalized tree of a source value (merge.go normalize*), embedded configs copied (normalizeValue) -/
-partial def build (pol : Pol) (regs : Array (Option Id)) (h : Heap) (j : Json) (parent : Option Id) (field : String) : FR (Heap × Id) := do
+/-- a case's source value as the model's `Src`; what the model does not describe (positive `i`, floats, `$` without an
+expression under VarExp, keys that are empty / numbers / dotted under PathSep, struct sources repeating a tag) is
+`unmodelled` -/
+partial def srcOf (pol : Pol) (regs : Array (Option Id)) (j : Json) : FR Src := do
   match j with
-  | .null => pure (h ++ [nilNode parent field], h.length)
+  | .null => pure .nil
   | _ =>
   if let some r := optField j "reg" then
     match r.getNat? with
     | .ok i =>
       match regs[i]? with
-      | some (some id) => cpyF h id parent field
+      | some (some id) => pure (.reg id)
       | _ => throw "empty register in source"
     | _ => throw "bad reg"
   else if let some (.str s) := optField j "s" then
     -- under VarExp a string holding an expression is stored unevaluated (the generator's expressions are well formed)
-    if pol.varexp && (s.splitOn "${").length > 1 then pure (h ++ [⟨parent, field, .prim "dyn" s⟩], h.length)
+    if pol.varexp && (s.splitOn "${").length > 1 then pure (.prim "dyn" s)
     else if pol.varexp && s.contains '$' then funmodelled
-    else pure (h ++ [⟨parent, field, .prim "string" s⟩], h.length)
-  else if let some (.str s) := optField j "u" then pure (h ++ [⟨parent, field, .prim "uint" s⟩], h.length)
+    else pure (.prim "string" s)
+  else if let some (.str s) := optField j "u" then pure (.prim "uint" s)
   else if let some (.str s) := optField j "i" then
-    if s.startsWith "-" then pure (h ++ [⟨parent, field, .prim "int" s⟩], h.length) else funmodelled
-  else if let some (.bool b) := optField j "b" then pure (h ++ [⟨parent, field, .prim "bool" (if b then "true" else "false")⟩], h.length)
+    if s.startsWith "-" then pure (.prim "int" s) else funmodelled
+  else if let some (.bool b) := optField j "b" then pure (.prim "bool" (if b then "true" else "false"))
   else if let some (.arr xs) := optField j "a" then do
-    let me := h.length
-    let mut hh := h ++ [⟨parent, field, .sub [] []⟩]
-    let mut ids : List Id := []
-    let mut i := 0
-    for x in xs do
-      let (h1, c) ← build pol regs hh x (some me) (idxName i)
-      hh := h1; ids := ids ++ [c]; i := i + 1
-    pure (setBody hh me (.sub [] ids), me)
+    let ys ← xs.toList.mapM (srcOf pol regs)
+    pure (.arr ys)
   else
     let entries : Option (List (String × Json)) :=
       match optField j "m", optField j "st" with
@@ -101,14 +97,20 @@ partial def build (pol : Pol) (regs : Array (Option Id)) (h : Heap) (j : Json) (
     | none => funmodelled
     | some es => do
       if es.any (fun (k, _) => k.isEmpty || allDigits k || (pol.pathSep && k.contains '.')) then funmodelled
-      let me := h.length
-      let mut hh := h ++ [⟨parent, field, .sub [] []⟩]
-      let mut d : List (String × Id) := []
+      let mut d : List (String × Src) := []
       for (k, v) in es do
         if d.any (·.1 == k) then funmodelled
-        let (h1, c) ← build pol regs hh v (some me) k
-        hh := h1; d := d ++ [(k, c)]
-      pure (setBody hh me (.sub d []), me)
+        let x ← srcOf pol regs v
+        d := d ++ [(k, x)]
+      pure (.map d)
+
+/-- the normalized tree of a source value: the model's `buildH` (merge.go normalize*; embedded configs are copied,
+normalizeValue) -/
+def build (pol : Pol) (regs : Array (Option Id)) (h : Heap) (j : Json) (parent : Option Id) (field : String) : FR (Heap × Id) := do
+  let src ← srcOf pol regs j
+  match buildH ffuel h src parent field with
+  | some r => pure r
+  | none => throw "copy ran out of fuel"
 
 def isNilPrim (n : Node) : Bool := match n.body with | .prim "nil" _ => true | _ => false
 def fIsSub (n : Node) : Bool := match n.body with | .sub .. => true | _ => false
@@ -277,8 +279,12 @@ def forestStep (h : Heap) (regs : Array (Option Id)) (op : Json) : FR (Heap × A
       | some rj => (match rj.getNat? with | .ok i => pure (h0, regId i) | _ => throw "bad reg")
       | none => build pol regs h0 src none "")
     if !(fIsSub (← fnodeAt h1 frm)) then funmodelled
-    let h2 ← mergeCfgH pol h1 root frm
-    pure (h2, regs.set! r (some root))
+    -- NewFrom is the model's `newFromH`; the steps above only say why it would answer `none`
+    match newFromH mfuel ffuel (arrPolOf pol.arr) h (← srcOf pol regs src) with
+    | some (h2, root') => pure (h2, regs.set! r (some root'))
+    | none =>
+      let _ ← mergeCfgH pol h1 root frm
+      throw "model newFromH gave none where the steps succeed"
   | "merge" =>
     let src := (optField op "from").getD .null
     let (h1, frm) ← (match optField src "reg" with
@@ -287,8 +293,11 @@ def forestStep (h : Heap) (regs : Array (Option Id)) (op : Json) : FR (Heap × A
     if !(fIsSub (← fnodeAt h1 frm)) then funmodelled
     -- a config merged directly into its own descendant or ancestor changes under the iteration: not described
     if onParentChain h1 64 (regId r) frm || onParentChain h1 64 frm (regId r) then funmodelled
-    let h2 ← mergeCfgH pol h1 (regId r) frm
-    pure (h2, regs)
+    match mergeSrcH mfuel ffuel (arrPolOf pol.arr) h (regId r) (← srcOf pol regs src) with
+    | some h2 => pure (h2, regs)
+    | none =>
+      let _ ← mergeCfgH pol h1 (regId r) frm
+      throw "model mergeSrcH gave none where the steps succeed"
   | "set" =>
     let (k, v) ← fPrimOf ((optField op "val").getD .null)
     let segs ← fSegs name idx pol.pathSep
